@@ -125,7 +125,7 @@ def h_tree(model: str, n: int, small: bool, **sym):
     real, ref = models.get(model)
     roles = ROLES[model][:3] if small else ROLES[model]
     atoms = ATOMS[:3] if small else ATOMS
-    concepts = CONCEPTS[:1] + CONCEPTS[2:] if small else CONCEPTS
+    concepts = ['y', NO_CONCEPT] if small else CONCEPTS
     node = progs.tree_program(sym, n, roles, atoms, concepts,
                               varnames=VARNAMES)
     assume(well_formed(node, ref))
